@@ -8,12 +8,20 @@ All theorems hold for every linearly ordered coordinate type `X` (the driver run
 `VanishAtInf U` — the tail integral family vanishes as soon as one argument is ±∞ — is what C11 groundedness and
 `ν(∅) = 0` give for the implementation's family `U_I(x) = F^I(U_i(x_i))`.
 
-Not proved here (see NOT_PROVED in harness/props/c12.py): non-negativity in d = 3; additivity for general d;
-mass = integral of the joint density; the root search of `inverse_tail_integral`.
+New in round 2: additivity / whole-line margins of the general recursion `massNd` for EVERY dimension
+(`massNd_additive_split`, `massNd_whole_line`, lemmas in Lemmas/C12Nd.lean); d = 3 non-negativity from a 3-increasing
+hypothesis (`mass3d_nonneg_adm`, `mass3d_nonneg`) and, with C11's theorems plugged in, for the Clayton copula with no
+hypothesis left on the copula (`clayton_mass3d_nonneg`, `clayton_real_mass3d_nonneg`).
+
+Not proved here (see NOT_PROVED in harness/props/c12.py): non-negativity for d ≥ 4; mass = integral of the joint
+density; the root search of `inverse_tail_integral`.
 -/
 import RpylibModel.Model.CopulaMass
 import RpylibModel.Proofs.Lemmas.C12Order
 import RpylibModel.Proofs.Lemmas.C12Nd
+import RpylibModel.Proofs.Lemmas.C11Margin
+import RpylibModel.Proofs.Lemmas.C11Clayton3
+import RpylibModel.Proofs.Lemmas.C11Real3
 import Mathlib.Tactic.Linarith
 import Mathlib.Tactic.Ring
 import Mathlib.Tactic.Order
@@ -371,7 +379,7 @@ theorem mass3d_whole_plane (U : Tail X R) (z ni pi : X) (H : VanishAtInf U ni pi
 /-! ## Non-negativity (d = 2) from the 2-increasing property of the copula (C11) -/
 
 section nonneg
-variable {Y : Type} [LinearOrder Y] {S : Type} [Field S] [LinearOrder S] [IsStrictOrderedRing S]
+variable {Y : Type} [LE Y] {S : Type} [Field S] [LinearOrder S] [IsStrictOrderedRing S]
 
 /-- `F` gives non-negative volume to every rectangle — what C11 proves for the copulas -/
 def TwoIncreasing (F : Y → Y → S) : Prop :=
@@ -404,12 +412,45 @@ theorem mass2d_nonneg (U : Tail X S) (z : X) (F : Y → Y → S) (hF : TwoIncrea
     simp at *; linarith
   · exact absurd ⟨h1, h2⟩ h
 
+/-- d = 2 with the 2-increasing property restricted to the boxes having a side with `fin` end points (what C11 proves
+    on the extended plane: no corner with two infinite entries) -/
+def TwoIncreasingAdm (fin : Y → Prop) (F : Y → Y → S) : Prop :=
+  ∀ y1 y1' y2 y2', y1 ≤ y1' → y2 ≤ y2' → ((fin y1 ∧ fin y1') ∨ (fin y2 ∧ fin y2')) →
+    0 ≤ F y1' y2' + F y1 y2 - F y1 y2' - F y1' y2
+
+theorem mass2d_nonneg_adm (U : Tail X S) (z : X) (fin : Y → Prop) (F : Y → Y → S) (hF : TwoIncreasingAdm fin F)
+    (bot top : Y) (hbot : ∀ y, bot ≤ y) (htop : ∀ y, y ≤ top) (u1 u2 : X → Y) (i1 i2 : Nat)
+    (hU : ∀ x1 x2, U [i1, i2] [x1, x2] = F (u1 x1) (u2 x2))
+    (hU1 : ∀ x, U [i1] [x] = F (u1 x) top - F (u1 x) bot)
+    (hU2 : ∀ x, U [i2] [x] = F top (u2 x) - F bot (u2 x))
+    (a1 a2 b1 b2 : X) (m1 : straddle z a1 b1 = false → u1 b1 ≤ u1 a1 ∧ fin (u1 b1) ∧ fin (u1 a1))
+    (m2 : straddle z a2 b2 = false → u2 b2 ≤ u2 a2 ∧ fin (u2 b2) ∧ fin (u2 a2))
+    (h : ¬ (straddle z a1 b1 = true ∧ straddle z a2 b2 = true)) :
+    0 ≤ mass2d U z [i1, i2] [a1, a2] [b1, b2] := by
+  rcases h1 : straddle z a1 b1 <;> rcases h2 : straddle z a2 b2
+  · simp only [mass2d, mass1d, h1, h2, hU, Bool.false_eq_true, if_false]
+    have := hF _ _ _ _ (m1 h1).1 (m2 h2).1 (Or.inl (m1 h1).2)
+    linarith
+  · simp only [mass2d, mass1d, h1, h2, hU, hU1, Bool.false_eq_true, if_false, if_true]
+    have v1 := hF _ _ _ _ (m1 h1).1 (hbot (u2 a2)) (Or.inl (m1 h1).2)
+    have v2 := hF _ _ _ _ (m1 h1).1 (htop (u2 b2)) (Or.inl (m1 h1).2)
+    linarith
+  · simp only [mass2d, mass1d, h1, h2, hU, hU2, Bool.false_eq_true, if_false, if_true]
+    have v1 := hF _ _ _ _ (hbot (u1 a1)) (m2 h2).1 (Or.inr (m2 h2).2)
+    have v2 := hF _ _ _ _ (htop (u1 b1)) (m2 h2).1 (Or.inr (m2 h2).2)
+    linarith
+  · exact absurd ⟨h1, h2⟩ h
+
 /-! ### d = 3 -/
 
-/-- `F` gives non-negative volume to every box of `Y³` — the 3-increasing property of the copula (C11) -/
-def ThreeIncreasing (F : Y → Y → Y → S) : Prop :=
-  ∀ x x' y y' w w', x ≤ x' → y ≤ y' → w ≤ w' →
+/-- `F` gives non-negative volume to every box of `Y³` one side of which has both end points in `fin` — the
+    3-increasing property as C11 proves it (`fin` = "finite": boxes without an all-infinite corner) -/
+def ThreeIncreasingAdm (fin : Y → Prop) (F : Y → Y → Y → S) : Prop :=
+  ∀ x x' y y' w w', x ≤ x' → y ≤ y' → w ≤ w' → ((fin x ∧ fin x') ∨ (fin y ∧ fin y') ∨ (fin w ∧ fin w')) →
     0 ≤ F x' y' w' - F x y' w' - F x' y w' - F x' y' w + F x y w' + F x y' w + F x' y w - F x y w
+
+/-- `F` gives non-negative volume to every box of `Y³` — the unrestricted 3-increasing property -/
+def ThreeIncreasing (F : Y → Y → Y → S) : Prop := ThreeIncreasingAdm (fun _ => True) F
 
 /-- the tail-integral family of a 3-d copula model: `U_{123} = F(u_1, u_2, u_3)` and the sub-families are the
     I-margins of `F` (`margin`: the complement positions run through ⊥ = −∞, ⊤ = +∞ with the product of signs) -/
@@ -422,95 +463,99 @@ structure Family3 (U : Tail X S) (F : Y → Y → Y → S) (bot top : Y) (u1 u2 
   h2 : ∀ x, U [i2] [x] = F top (u2 x) top - F top (u2 x) bot - F bot (u2 x) top + F bot (u2 x) bot
   h3 : ∀ x, U [i3] [x] = F top top (u3 x) - F top bot (u3 x) - F bot top (u3 x) + F bot bot (u3 x)
 
+/-- a non-straddling side: the marginal tail integral decreases along it and is `fin` at both ends -/
+def SideOK (fin : Y → Prop) (u : X → Y) (a b : X) : Prop := u b ≤ u a ∧ fin (u b) ∧ fin (u a)
+
 /-- d = 3, no straddling coordinate (orthant box): the coded mass is one `F`-volume -/
-theorem mass3d_nonneg_orthant (U : Tail X S) (z : X) (F : Y → Y → Y → S) (hF : ThreeIncreasing F) (bot top : Y)
+theorem mass3d_nonneg_orthant (U : Tail X S) (z : X) (fin : Y → Prop) (F : Y → Y → Y → S)
+    (hF : ThreeIncreasingAdm fin F) (bot top : Y)
     (u1 u2 u3 : X → Y) (i1 i2 i3 : Nat) (hU : Family3 U F bot top u1 u2 u3 i1 i2 i3) (a1 a2 a3 b1 b2 b3 : X)
     (h1 : straddle z a1 b1 = false) (h2 : straddle z a2 b2 = false) (h3 : straddle z a3 b3 = false)
-    (m1 : u1 b1 ≤ u1 a1) (m2 : u2 b2 ≤ u2 a2) (m3 : u3 b3 ≤ u3 a3) :
+    (m1 : SideOK fin u1 a1 b1) (m2 : SideOK fin u2 a2 b2) (m3 : SideOK fin u3 a3 b3) :
     0 ≤ mass3d U z [i1, i2, i3] [a1, a2, a3] [b1, b2, b3] := by
   simp only [mass3d, h1, h2, h3, hU.h123, Bool.false_eq_true, if_false]
-  have := hF _ _ _ _ _ _ m1 m2 m3
+  have := hF _ _ _ _ _ _ m1.1 m2.1 m3.1 (Or.inl m1.2)
   linarith
 
 /-- d = 3, exactly one straddling coordinate: the coded mass is the sum of two `F`-volumes
     (`(⊥, u_k a_k]` and `(u_k b_k, ⊤]` in the straddling coordinate) -/
-theorem mass3d_nonneg_one (U : Tail X S) (z : X) (F : Y → Y → Y → S) (hF : ThreeIncreasing F) (bot top : Y)
-    (hbot : ∀ y, bot ≤ y) (htop : ∀ y, y ≤ top)
+theorem mass3d_nonneg_one (U : Tail X S) (z : X) (fin : Y → Prop) (F : Y → Y → Y → S)
+    (hF : ThreeIncreasingAdm fin F) (bot top : Y) (hbot : ∀ y, bot ≤ y) (htop : ∀ y, y ≤ top)
     (u1 u2 u3 : X → Y) (i1 i2 i3 : Nat) (hU : Family3 U F bot top u1 u2 u3 i1 i2 i3) (a1 a2 a3 b1 b2 b3 : X) :
-    (straddle z a1 b1 = true → straddle z a2 b2 = false → straddle z a3 b3 = false → u2 b2 ≤ u2 a2 → u3 b3 ≤ u3 a3 →
-      0 ≤ mass3d U z [i1, i2, i3] [a1, a2, a3] [b1, b2, b3]) ∧
-    (straddle z a1 b1 = false → straddle z a2 b2 = true → straddle z a3 b3 = false → u1 b1 ≤ u1 a1 → u3 b3 ≤ u3 a3 →
-      0 ≤ mass3d U z [i1, i2, i3] [a1, a2, a3] [b1, b2, b3]) ∧
-    (straddle z a1 b1 = false → straddle z a2 b2 = false → straddle z a3 b3 = true → u1 b1 ≤ u1 a1 → u2 b2 ≤ u2 a2 →
-      0 ≤ mass3d U z [i1, i2, i3] [a1, a2, a3] [b1, b2, b3]) := by
+    (straddle z a1 b1 = true → straddle z a2 b2 = false → straddle z a3 b3 = false → SideOK fin u2 a2 b2 →
+      SideOK fin u3 a3 b3 → 0 ≤ mass3d U z [i1, i2, i3] [a1, a2, a3] [b1, b2, b3]) ∧
+    (straddle z a1 b1 = false → straddle z a2 b2 = true → straddle z a3 b3 = false → SideOK fin u1 a1 b1 →
+      SideOK fin u3 a3 b3 → 0 ≤ mass3d U z [i1, i2, i3] [a1, a2, a3] [b1, b2, b3]) ∧
+    (straddle z a1 b1 = false → straddle z a2 b2 = false → straddle z a3 b3 = true → SideOK fin u1 a1 b1 →
+      SideOK fin u2 a2 b2 → 0 ≤ mass3d U z [i1, i2, i3] [a1, a2, a3] [b1, b2, b3]) := by
   refine ⟨?_, ?_, ?_⟩
   · intro h1 h2 h3 m2 m3
     simp only [mass3d, mass2d, mass1d, cross, h1, h2, h3, hU.h123, hU.h23, Bool.false_eq_true, if_false, if_true]
-    have v1 := hF _ _ _ _ _ _ (hbot (u1 a1)) m2 m3
-    have v2 := hF _ _ _ _ _ _ (htop (u1 b1)) m2 m3
+    have v1 := hF _ _ _ _ _ _ (hbot (u1 a1)) m2.1 m3.1 (Or.inr (Or.inl m2.2))
+    have v2 := hF _ _ _ _ _ _ (htop (u1 b1)) m2.1 m3.1 (Or.inr (Or.inl m2.2))
     linarith
   · intro h1 h2 h3 m1 m3
     simp only [mass3d, mass2d, mass1d, cross, h1, h2, h3, hU.h123, hU.h13, Bool.false_eq_true, if_false, if_true]
-    have v1 := hF _ _ _ _ _ _ m1 (hbot (u2 a2)) m3
-    have v2 := hF _ _ _ _ _ _ m1 (htop (u2 b2)) m3
+    have v1 := hF _ _ _ _ _ _ m1.1 (hbot (u2 a2)) m3.1 (Or.inl m1.2)
+    have v2 := hF _ _ _ _ _ _ m1.1 (htop (u2 b2)) m3.1 (Or.inl m1.2)
     linarith
   · intro h1 h2 h3 m1 m2
     simp only [mass3d, mass2d, mass1d, cross, h1, h2, h3, hU.h123, hU.h12, Bool.false_eq_true, if_false, if_true]
-    have v1 := hF _ _ _ _ _ _ m1 m2 (hbot (u3 a3))
-    have v2 := hF _ _ _ _ _ _ m1 m2 (htop (u3 b3))
+    have v1 := hF _ _ _ _ _ _ m1.1 m2.1 (hbot (u3 a3)) (Or.inl m1.2)
+    have v2 := hF _ _ _ _ _ _ m1.1 m2.1 (htop (u3 b3)) (Or.inl m1.2)
     linarith
 
 /-- d = 3, exactly two straddling coordinates: the coded mass is the sum of four `F`-volumes -/
-theorem mass3d_nonneg_two (U : Tail X S) (z : X) (F : Y → Y → Y → S) (hF : ThreeIncreasing F) (bot top : Y)
-    (hbot : ∀ y, bot ≤ y) (htop : ∀ y, y ≤ top)
+theorem mass3d_nonneg_two (U : Tail X S) (z : X) (fin : Y → Prop) (F : Y → Y → Y → S)
+    (hF : ThreeIncreasingAdm fin F) (bot top : Y) (hbot : ∀ y, bot ≤ y) (htop : ∀ y, y ≤ top)
     (u1 u2 u3 : X → Y) (i1 i2 i3 : Nat) (hU : Family3 U F bot top u1 u2 u3 i1 i2 i3) (a1 a2 a3 b1 b2 b3 : X) :
-    (straddle z a1 b1 = true → straddle z a2 b2 = true → straddle z a3 b3 = false → u3 b3 ≤ u3 a3 →
+    (straddle z a1 b1 = true → straddle z a2 b2 = true → straddle z a3 b3 = false → SideOK fin u3 a3 b3 →
       0 ≤ mass3d U z [i1, i2, i3] [a1, a2, a3] [b1, b2, b3]) ∧
-    (straddle z a1 b1 = true → straddle z a2 b2 = false → straddle z a3 b3 = true → u2 b2 ≤ u2 a2 →
+    (straddle z a1 b1 = true → straddle z a2 b2 = false → straddle z a3 b3 = true → SideOK fin u2 a2 b2 →
       0 ≤ mass3d U z [i1, i2, i3] [a1, a2, a3] [b1, b2, b3]) ∧
-    (straddle z a1 b1 = false → straddle z a2 b2 = true → straddle z a3 b3 = true → u1 b1 ≤ u1 a1 →
+    (straddle z a1 b1 = false → straddle z a2 b2 = true → straddle z a3 b3 = true → SideOK fin u1 a1 b1 →
       0 ≤ mass3d U z [i1, i2, i3] [a1, a2, a3] [b1, b2, b3]) := by
   refine ⟨?_, ?_, ?_⟩
   · intro h1 h2 h3 m3
     simp only [mass3d, mass2d, mass1d, cross, h1, h2, h3, hU.h123, hU.h23, hU.h13, hU.h3, Bool.false_eq_true,
       if_false, if_true]
-    have v1 := hF _ _ _ _ _ _ (hbot (u1 a1)) (hbot (u2 a2)) m3
-    have v2 := hF _ _ _ _ _ _ (hbot (u1 a1)) (htop (u2 b2)) m3
-    have v3 := hF _ _ _ _ _ _ (htop (u1 b1)) (hbot (u2 a2)) m3
-    have v4 := hF _ _ _ _ _ _ (htop (u1 b1)) (htop (u2 b2)) m3
+    have v1 := hF _ _ _ _ _ _ (hbot (u1 a1)) (hbot (u2 a2)) m3.1 (Or.inr (Or.inr m3.2))
+    have v2 := hF _ _ _ _ _ _ (hbot (u1 a1)) (htop (u2 b2)) m3.1 (Or.inr (Or.inr m3.2))
+    have v3 := hF _ _ _ _ _ _ (htop (u1 b1)) (hbot (u2 a2)) m3.1 (Or.inr (Or.inr m3.2))
+    have v4 := hF _ _ _ _ _ _ (htop (u1 b1)) (htop (u2 b2)) m3.1 (Or.inr (Or.inr m3.2))
     linarith
   · intro h1 h2 h3 m2
     simp only [mass3d, mass2d, mass1d, cross, h1, h2, h3, hU.h123, hU.h23, hU.h12, hU.h2, Bool.false_eq_true,
       if_false, if_true]
-    have v1 := hF _ _ _ _ _ _ (hbot (u1 a1)) m2 (hbot (u3 a3))
-    have v2 := hF _ _ _ _ _ _ (hbot (u1 a1)) m2 (htop (u3 b3))
-    have v3 := hF _ _ _ _ _ _ (htop (u1 b1)) m2 (hbot (u3 a3))
-    have v4 := hF _ _ _ _ _ _ (htop (u1 b1)) m2 (htop (u3 b3))
+    have v1 := hF _ _ _ _ _ _ (hbot (u1 a1)) m2.1 (hbot (u3 a3)) (Or.inr (Or.inl m2.2))
+    have v2 := hF _ _ _ _ _ _ (hbot (u1 a1)) m2.1 (htop (u3 b3)) (Or.inr (Or.inl m2.2))
+    have v3 := hF _ _ _ _ _ _ (htop (u1 b1)) m2.1 (hbot (u3 a3)) (Or.inr (Or.inl m2.2))
+    have v4 := hF _ _ _ _ _ _ (htop (u1 b1)) m2.1 (htop (u3 b3)) (Or.inr (Or.inl m2.2))
     linarith
   · intro h1 h2 h3 m1
     simp only [mass3d, mass2d, mass1d, cross, h1, h2, h3, hU.h123, hU.h13, hU.h12, hU.h1, Bool.false_eq_true,
       if_false, if_true]
-    have v1 := hF _ _ _ _ _ _ m1 (hbot (u2 a2)) (hbot (u3 a3))
-    have v2 := hF _ _ _ _ _ _ m1 (hbot (u2 a2)) (htop (u3 b3))
-    have v3 := hF _ _ _ _ _ _ m1 (htop (u2 b2)) (hbot (u3 a3))
-    have v4 := hF _ _ _ _ _ _ m1 (htop (u2 b2)) (htop (u3 b3))
+    have v1 := hF _ _ _ _ _ _ m1.1 (hbot (u2 a2)) (hbot (u3 a3)) (Or.inl m1.2)
+    have v2 := hF _ _ _ _ _ _ m1.1 (hbot (u2 a2)) (htop (u3 b3)) (Or.inl m1.2)
+    have v3 := hF _ _ _ _ _ _ m1.1 (htop (u2 b2)) (hbot (u3 a3)) (Or.inl m1.2)
+    have v4 := hF _ _ _ _ _ _ m1.1 (htop (u2 b2)) (htop (u3 b3)) (Or.inl m1.2)
     linarith
 
 /-- **d = 3: the coded mass of every rectangle that does not contain the origin is non-negative**, if the
-    tail-integral family is that of a 3-increasing `F` (`Family3`) and the marginal tail integrals decrease along every
-    non-straddling side (`u_k b_k ≤ u_k a_k`).  All 26 sign patterns: orthant boxes (one `F`-volume), one straddling
-    coordinate (two), two straddling coordinates (four). -/
-theorem mass3d_nonneg (U : Tail X S) (z : X) (F : Y → Y → Y → S) (hF : ThreeIncreasing F) (bot top : Y)
-    (hbot : ∀ y, bot ≤ y) (htop : ∀ y, y ≤ top)
+    tail-integral family is that of an `F` (`Family3`) that is 3-increasing on the boxes having a side with `fin` end
+    points, and along every non-straddling side the marginal tail integral decreases (`u_k b_k ≤ u_k a_k`) between
+    `fin` values.  All 26 sign patterns: orthant boxes (one `F`-volume), one straddling coordinate (two), two (four). -/
+theorem mass3d_nonneg_adm (U : Tail X S) (z : X) (fin : Y → Prop) (F : Y → Y → Y → S) (hF : ThreeIncreasingAdm fin F)
+    (bot top : Y) (hbot : ∀ y, bot ≤ y) (htop : ∀ y, y ≤ top)
     (u1 u2 u3 : X → Y) (i1 i2 i3 : Nat) (hU : Family3 U F bot top u1 u2 u3 i1 i2 i3) (a1 a2 a3 b1 b2 b3 : X)
-    (m1 : straddle z a1 b1 = false → u1 b1 ≤ u1 a1) (m2 : straddle z a2 b2 = false → u2 b2 ≤ u2 a2)
-    (m3 : straddle z a3 b3 = false → u3 b3 ≤ u3 a3)
+    (m1 : straddle z a1 b1 = false → SideOK fin u1 a1 b1) (m2 : straddle z a2 b2 = false → SideOK fin u2 a2 b2)
+    (m3 : straddle z a3 b3 = false → SideOK fin u3 a3 b3)
     (h : ¬ (straddle z a1 b1 = true ∧ straddle z a2 b2 = true ∧ straddle z a3 b3 = true)) :
     0 ≤ mass3d U z [i1, i2, i3] [a1, a2, a3] [b1, b2, b3] := by
-  obtain ⟨o1, o2, o3⟩ := mass3d_nonneg_one U z F hF bot top hbot htop u1 u2 u3 i1 i2 i3 hU a1 a2 a3 b1 b2 b3
-  obtain ⟨t1, t2, t3⟩ := mass3d_nonneg_two U z F hF bot top hbot htop u1 u2 u3 i1 i2 i3 hU a1 a2 a3 b1 b2 b3
+  obtain ⟨o1, o2, o3⟩ := mass3d_nonneg_one U z fin F hF bot top hbot htop u1 u2 u3 i1 i2 i3 hU a1 a2 a3 b1 b2 b3
+  obtain ⟨t1, t2, t3⟩ := mass3d_nonneg_two U z fin F hF bot top hbot htop u1 u2 u3 i1 i2 i3 hU a1 a2 a3 b1 b2 b3
   rcases h1 : straddle z a1 b1 <;> rcases h2 : straddle z a2 b2 <;> rcases h3 : straddle z a3 b3
-  · exact mass3d_nonneg_orthant U z F hF bot top u1 u2 u3 i1 i2 i3 hU a1 a2 a3 b1 b2 b3 h1 h2 h3 (m1 h1) (m2 h2) (m3 h3)
+  · exact mass3d_nonneg_orthant U z fin F hF bot top u1 u2 u3 i1 i2 i3 hU a1 a2 a3 b1 b2 b3 h1 h2 h3 (m1 h1) (m2 h2) (m3 h3)
   · exact o3 h1 h2 h3 (m1 h1) (m2 h2)
   · exact o2 h1 h2 h3 (m1 h1) (m3 h3)
   · exact t3 h1 h2 h3 (m1 h1)
@@ -518,6 +563,17 @@ theorem mass3d_nonneg (U : Tail X S) (z : X) (F : Y → Y → Y → S) (hF : Thr
   · exact t2 h1 h2 h3 (m2 h2)
   · exact t1 h1 h2 h3 (m3 h3)
   · exact absurd ⟨h1, h2, h3⟩ h
+
+/-- the unrestricted form: `F` 3-increasing on all boxes, marginal tail integrals decreasing along non-straddling sides -/
+theorem mass3d_nonneg (U : Tail X S) (z : X) (F : Y → Y → Y → S) (hF : ThreeIncreasing F) (bot top : Y)
+    (hbot : ∀ y, bot ≤ y) (htop : ∀ y, y ≤ top)
+    (u1 u2 u3 : X → Y) (i1 i2 i3 : Nat) (hU : Family3 U F bot top u1 u2 u3 i1 i2 i3) (a1 a2 a3 b1 b2 b3 : X)
+    (m1 : straddle z a1 b1 = false → u1 b1 ≤ u1 a1) (m2 : straddle z a2 b2 = false → u2 b2 ≤ u2 a2)
+    (m3 : straddle z a3 b3 = false → u3 b3 ≤ u3 a3)
+    (h : ¬ (straddle z a1 b1 = true ∧ straddle z a2 b2 = true ∧ straddle z a3 b3 = true)) :
+    0 ≤ mass3d U z [i1, i2, i3] [a1, a2, a3] [b1, b2, b3] :=
+  mass3d_nonneg_adm U z (fun _ => True) F hF bot top hbot htop u1 u2 u3 i1 i2 i3 hU a1 a2 a3 b1 b2 b3
+    (fun h1 => ⟨m1 h1, trivial, trivial⟩) (fun h2 => ⟨m2 h2, trivial, trivial⟩) (fun h3 => ⟨m3 h3, trivial, trivial⟩) h
 
 /-! ### non-vacuity of `mass3d_nonneg`: a concrete 3-increasing `F` on the five-point chain ⊥ < −1 < 0 < 1 < ⊤ -/
 
@@ -539,7 +595,7 @@ def exU : Tail ℚ ℚ := fun I x =>
   | _, _ => 0
 
 theorem exF_threeIncreasing : ThreeIncreasing exF := by
-  intro x x' y y' w w' hx hy hw
+  intro x x' y y' w w' hx hy hw _
   have e : exF x' y' w' - exF x y' w' - exF x' y w' - exF x' y' w + exF x y w' + exF x y' w + exF x' y w - exF x y w =
       ((x'.val : ℚ) - x.val) * ((y'.val : ℚ) - y.val) * ((w'.val : ℚ) - w.val) := by unfold exF; ring
   rw [e]
@@ -556,6 +612,120 @@ example : 0 ≤ mass3d exU 0 [0, 1, 2] [-2, -2, 1/2] [3, 3, 2] :=
   mass3d_nonneg exU 0 exF exF_threeIncreasing 0 4 (fun y => Fin.zero_le y) (fun y => Fin.le_last y) exU1 exU1 exU1 0 1 2
     exU_family (-2) (-2) (1/2) 3 3 2 (by norm_num [straddle]) (by norm_num [straddle])
     (by intro _; norm_num [exU1]; decide) (by norm_num [straddle])
+
+/-! ### d = 3, the Clayton copula: the hypotheses of `mass3d_nonneg_adm` are theorems of C11 -/
+
+section clayton
+variable {K : Type} [Field K] [LinearOrder K] [IsStrictOrderedRing K]
+
+/-- **d = 3 Clayton model, non-negativity of the coded mass with no hypothesis left on the copula.**  For every
+    generator pair with `ClaytonGen` and `Slope3` (θ = 1 over ℚ: `gen1`; every θ > 0 over ℝ: `genReal θ`), every
+    η ∈ [0,1], every family of finite marginal tail integrals `u_k` that decrease along the non-straddling sides: if the
+    tail-integral family is built as `margin_tail_integral` builds it (full index set: `F(u_1,u_2,u_3)`; two indices:
+    the I-margin of `F`; one index: the marginal tail integral itself), the coded `_mass_3d` of every rectangle that
+    does not contain the origin is ≥ 0. -/
+theorem clayton_mass3d_nonneg {G : Gen K} (hG : ClaytonGen G) (h3 : Slope3 G.psi) (eta : K) (h0 : 0 ≤ eta)
+    (h1 : eta ≤ 1) (U : Tail X K) (z : X) (u1 u2 u3 : X → K)
+    (hU123 : ∀ x1 x2 x3, U [0, 1, 2] [x1, x2, x3] = claytonOf G (1 / 2) eta [.fin (u1 x1), .fin (u2 x2), .fin (u3 x3)])
+    (hU12 : ∀ x1 x2, U [0, 1] [x1, x2] = margin (claytonOf G (1 / 2) eta) [0, 1] 3 [.fin (u1 x1), .fin (u2 x2)])
+    (hU13 : ∀ x1 x3, U [0, 2] [x1, x3] = margin (claytonOf G (1 / 2) eta) [0, 2] 3 [.fin (u1 x1), .fin (u3 x3)])
+    (hU23 : ∀ x2 x3, U [1, 2] [x2, x3] = margin (claytonOf G (1 / 2) eta) [1, 2] 3 [.fin (u2 x2), .fin (u3 x3)])
+    (hU1 : ∀ x, U [0] [x] = u1 x) (hU2 : ∀ x, U [1] [x] = u2 x) (hU3 : ∀ x, U [2] [x] = u3 x)
+    (a1 a2 a3 b1 b2 b3 : X)
+    (m1 : straddle z a1 b1 = false → u1 b1 ≤ u1 a1) (m2 : straddle z a2 b2 = false → u2 b2 ≤ u2 a2)
+    (m3 : straddle z a3 b3 = false → u3 b3 ≤ u3 a3)
+    (h : ¬ (straddle z a1 b1 = true ∧ straddle z a2 b2 = true ∧ straddle z a3 b3 = true)) :
+    0 ≤ mass3d U z [0, 1, 2] [a1, a2, a3] [b1, b2, b3] := by
+  let _ : LE (Ext K) := ⟨Ext.LE⟩
+  have hF : ThreeIncreasingAdm (fun y : Ext K => y.isInf = false) (F3 G eta) := by
+    intro x x' y y' w w' lx ly lw hadm
+    exact F3_three_increasing hG h3 eta h0 h1 x x' y y' w w' hadm lx ly lw
+  have mg := fun a i hi => claytonOf_margin_d3 hG eta a i hi
+  have hU : Family3 U (F3 G eta) .negInf .posInf (fun x => Ext.fin (u1 x)) (fun x => Ext.fin (u2 x))
+      (fun x => Ext.fin (u3 x)) 0 1 2 := by
+    refine ⟨fun x1 x2 x3 => hU123 x1 x2 x3, ?_, ?_, ?_, ?_, ?_, ?_⟩
+    · intro x1 x2; rw [hU12]; simp [margin, marginArgs, slot, findIdx, sumList, F3]; ring
+    · intro x1 x3; rw [hU13]; simp [margin, marginArgs, slot, findIdx, sumList, F3]; ring
+    · intro x2 x3; rw [hU23]; simp [margin, marginArgs, slot, findIdx, sumList, F3]; ring
+    · intro x; rw [hU1]
+      have := mg (u1 x) 0 (by norm_num)
+      simp [margin, marginArgs, slot, findIdx, sumList] at this
+      simp only [F3]; linarith
+    · intro x; rw [hU2]
+      have := mg (u2 x) 1 (by norm_num)
+      simp [margin, marginArgs, slot, findIdx, sumList] at this
+      simp only [F3]; linarith
+    · intro x; rw [hU3]
+      have := mg (u3 x) 2 (by norm_num)
+      simp [margin, marginArgs, slot, findIdx, sumList] at this
+      simp only [F3]; linarith
+  exact mass3d_nonneg_adm U z (fun y : Ext K => y.isInf = false) (F3 G eta) hF .negInf .posInf
+    (fun y => by cases y <;> trivial) (fun y => by cases y <;> trivial) _ _ _ 0 1 2 hU a1 a2 a3 b1 b2 b3
+    (fun s => ⟨m1 s, rfl, rfl⟩) (fun s => ⟨m2 s, rfl, rfl⟩) (fun s => ⟨m3 s, rfl, rfl⟩) h
+
+/-- **d = 2 Clayton model** (`ClaytonGen` generator pair: θ = 1 over ℚ, every θ > 0 over ℝ; η ∈ [0,1]; finite marginal
+    tail integrals decreasing along the non-straddling sides; the family built as `margin_tail_integral` builds it):
+    the coded `_mass_2d` of every rectangle that does not contain the origin is ≥ 0 -/
+theorem clayton_mass2d_nonneg {G : Gen K} (hG : ClaytonGen G) (eta : K) (h0 : 0 ≤ eta) (h1 : eta ≤ 1) (U : Tail X K)
+    (z : X) (u1 u2 : X → K)
+    (hU12 : ∀ x1 x2, U [0, 1] [x1, x2] = claytonOf G 1 eta [.fin (u1 x1), .fin (u2 x2)])
+    (hU1 : ∀ x, U [0] [x] = u1 x) (hU2 : ∀ x, U [1] [x] = u2 x) (a1 a2 b1 b2 : X)
+    (m1 : straddle z a1 b1 = false → u1 b1 ≤ u1 a1) (m2 : straddle z a2 b2 = false → u2 b2 ≤ u2 a2)
+    (h : ¬ (straddle z a1 b1 = true ∧ straddle z a2 b2 = true)) :
+    0 ≤ mass2d U z [0, 1] [a1, a2] [b1, b2] := by
+  let _ : LE (Ext K) := ⟨Ext.LE⟩
+  have hF : TwoIncreasingAdm (fun y : Ext K => y.isInf = false) (F2 G eta) := by
+    intro x x' y y' lx ly hadm
+    exact F2_two_increasing hG eta h0 h1 x x' y y' hadm lx ly
+  have mg := fun a i hi => claytonOf_margin_d2 hG eta a i hi
+  refine mass2d_nonneg_adm U z (fun y : Ext K => y.isInf = false) (F2 G eta) hF .negInf .posInf
+    (fun y => by cases y <;> trivial) (fun y => by cases y <;> trivial) (fun x => Ext.fin (u1 x))
+    (fun x => Ext.fin (u2 x)) 0 1 (fun x1 x2 => hU12 x1 x2) ?_ ?_ a1 a2 b1 b2 (fun s => ⟨m1 s, rfl, rfl⟩)
+    (fun s => ⟨m2 s, rfl, rfl⟩) h
+  · intro x; rw [hU1]
+    have := mg (u1 x) 0 (by norm_num)
+    simp [margin, marginArgs, slot, findIdx, sumList] at this
+    simp only [F2]; linarith
+  · intro x; rw [hU2]
+    have := mg (u2 x) 1 (by norm_num)
+    simp [margin, marginArgs, slot, findIdx, sumList] at this
+    simp only [F2]; linarith
+
+/-- every θ > 0, real arithmetic -/
+theorem clayton_real_mass3d_nonneg (θ : ℝ) (hθ : 0 < θ) (eta : ℝ) (h0 : 0 ≤ eta) (h1 : eta ≤ 1) (U : Tail X ℝ) (z : X)
+    (u1 u2 u3 : X → ℝ)
+    (hU123 : ∀ x1 x2 x3, U [0, 1, 2] [x1, x2, x3] =
+      claytonOf (genReal θ) (1 / 2) eta [.fin (u1 x1), .fin (u2 x2), .fin (u3 x3)])
+    (hU12 : ∀ x1 x2, U [0, 1] [x1, x2] = margin (claytonOf (genReal θ) (1 / 2) eta) [0, 1] 3 [.fin (u1 x1), .fin (u2 x2)])
+    (hU13 : ∀ x1 x3, U [0, 2] [x1, x3] = margin (claytonOf (genReal θ) (1 / 2) eta) [0, 2] 3 [.fin (u1 x1), .fin (u3 x3)])
+    (hU23 : ∀ x2 x3, U [1, 2] [x2, x3] = margin (claytonOf (genReal θ) (1 / 2) eta) [1, 2] 3 [.fin (u2 x2), .fin (u3 x3)])
+    (hU1 : ∀ x, U [0] [x] = u1 x) (hU2 : ∀ x, U [1] [x] = u2 x) (hU3 : ∀ x, U [2] [x] = u3 x)
+    (a1 a2 a3 b1 b2 b3 : X)
+    (m1 : straddle z a1 b1 = false → u1 b1 ≤ u1 a1) (m2 : straddle z a2 b2 = false → u2 b2 ≤ u2 a2)
+    (m3 : straddle z a3 b3 = false → u3 b3 ≤ u3 a3)
+    (h : ¬ (straddle z a1 b1 = true ∧ straddle z a2 b2 = true ∧ straddle z a3 b3 = true)) :
+    0 ≤ mass3d U z [0, 1, 2] [a1, a2, a3] [b1, b2, b3] :=
+  clayton_mass3d_nonneg (genReal_clayton θ hθ) (slope3_genReal θ hθ) eta h0 h1 U z u1 u2 u3 hU123 hU12 hU13 hU23 hU1 hU2
+    hU3 a1 a2 a3 b1 b2 b3 m1 m2 m3 h
+
+/-- non-vacuity of `clayton_mass3d_nonneg`: θ = 1, η = 1/2 over ℚ, marginal tail integrals `1/x` (the 1-stable
+    margins), the family built exactly as `margin_tail_integral` builds it; two straddling sides -/
+def exClaytonU : Tail ℚ ℚ := fun I x =>
+  match I, x with
+  | [0, 1, 2], [x1, x2, x3] => claytonOf gen1 (1 / 2) (1 / 2) [.fin (1 / x1), .fin (1 / x2), .fin (1 / x3)]
+  | [0, 1], [x1, x2] => margin (claytonOf gen1 (1 / 2) (1 / 2)) [0, 1] 3 [.fin (1 / x1), .fin (1 / x2)]
+  | [0, 2], [x1, x3] => margin (claytonOf gen1 (1 / 2) (1 / 2)) [0, 2] 3 [.fin (1 / x1), .fin (1 / x3)]
+  | [1, 2], [x2, x3] => margin (claytonOf gen1 (1 / 2) (1 / 2)) [1, 2] 3 [.fin (1 / x2), .fin (1 / x3)]
+  | [_], [x] => 1 / x
+  | _, _ => 0
+
+example : 0 ≤ mass3d exClaytonU 0 [0, 1, 2] [-1, -1, 1] [1, 2, 2] :=
+  clayton_mass3d_nonneg gen1_clayton slope3_gen1 (1 / 2) (by norm_num) (by norm_num) exClaytonU 0
+    (fun x => 1 / x) (fun x => 1 / x) (fun x => 1 / x) (fun _ _ _ => rfl) (fun _ _ => rfl) (fun _ _ => rfl)
+    (fun _ _ => rfl) (fun _ => rfl) (fun _ => rfl) (fun _ => rfl) (-1) (-1) 1 1 2 2
+    (by norm_num [straddle]) (by norm_num [straddle]) (by intro _; norm_num) (by norm_num [straddle])
+
+end clayton
 
 end nonneg
 
